@@ -152,13 +152,13 @@ type Bal struct {
 	Amt         *big.Int
 }
 type ClpParams struct {
-	Pmtp       *big.Int
-	FeeDefault *big.Int
-	FeeTokens  [][2]*big.Int
-	Lock       uint64
-	Cancel     uint64
-	Registry   [][2]int64 // denom id, permission bits
-	Whitelist  []int64
+	Pmtp          *big.Int
+	FeeDefault    *big.Int
+	FeeTokens     [][2]*big.Int
+	Lock          uint64
+	Cancel        uint64
+	Registry      [][2]int64 // denom id, permission bits
+	Whitelist     []int64
 	RewardsLock   uint64
 	RewardsWallet bool
 	EpochID       string
